@@ -43,11 +43,14 @@ pub fn oracle(text: &str, ctx: &mut Ctx) {
     }
 }
 
-fn fault_oracle(case: &crate::model::ProgCase, _index: u64, ctx: &mut Ctx) {
+fn fault_oracle(case: &crate::model::ProgCase, index: u64, ctx: &mut Ctx) {
+    // the replay regenerates the program from its index and runs all its faults again
+    ctx.case_extra = Some(serde_json::json!({ "index": index }));
     crate::props::gprog::for_each_fault(case, &mut |t| {
         ctx.count("program_layouts_and_single_faults", 1);
         oracle(t, ctx)
     });
+    ctx.case_extra = None;
 }
 
 pub fn spaces(tier: Tier, _seed: u64) -> Vec<Box<dyn Space>> {
